@@ -67,6 +67,8 @@ var c05Msg = mkSpace("message", []fieldDim{
 	{"ProtoB", []string{"", "redirect"}},
 	{"Optional", []string{"", "all"}},
 	{"KeyFault", []string{"", world.FaultError, world.FaultNilRecord, world.FaultNoCert, world.FaultNoKey}},
+	{"Sibling", []string{"", "shared-config-objects-after"}},
+	{"Lex", []string{"", "all"}},
 })
 
 type c05Case struct {
